@@ -36,14 +36,15 @@ import (
 	"github.com/sassoftware/relic/v8/server"
 	"github.com/sassoftware/relic/v8/server/daemon"
 	"github.com/sassoftware/relic/v8/signers"
-	"github.com/sassoftware/relic/v8/verifapi"
 	_ "github.com/sassoftware/relic/v8/signers/jar"
 	_ "github.com/sassoftware/relic/v8/signers/pecoff"
 	_ "github.com/sassoftware/relic/v8/signers/pgp"
 	_ "github.com/sassoftware/relic/v8/signers/ps"
+	"github.com/sassoftware/relic/v8/verifapi"
 
 	"verif/harness/internal/certs"
 	"verif/harness/internal/faketoken"
+	"verif/harness/internal/pipelinex"
 	"verif/harness/internal/res"
 )
 
@@ -174,19 +175,28 @@ func buildWorld(dir, auditKind, amqp string, cacheSeconds int, rateLimit float64
 }
 
 type reqSpec struct {
-	long    bool
-	rid     string
-	key     keySpec
-	sigtype string
-	digest  string
-	fixture string
+	long     bool
+	rid      string
+	key      keySpec
+	sigtype  string
+	digest   string
+	fixture  string
+	truncate bool
 }
 
-var fixtures = map[string]string{"jar": "hello.jar", "pe-coff": "ClassLibrary1.dll", "ps": "hello.ps1", "pgp": "Release"}
+var fixtures = map[string]string{"jar": "hello.jar", "pe-coff": "ClassLibrary1.dll", "ps": "hello.ps1", "pgp": "Release", "apk": "dummy.apk"}
+
+// apkBaseline: the APK signing-block digests of the (constant) apk fixture per requested digest, taken from the first
+// response for that digest and required of every later one: relic's own APK verifier does not compare them (known
+// finding under C02), so a request that signs bytes left over from another request would otherwise go unnoticed
+var (
+	apkMu       sync.Mutex
+	apkBaseline = map[string]string{}
+)
 
 func (w *world) randomReq(rnd *rand.Rand, n int) reqSpec {
 	k := w.keys[rnd.Intn(len(w.keys))]
-	types := []string{"jar", "pe-coff", "ps"}
+	types := []string{"jar", "pe-coff", "ps", "apk"}
 	if rawMode {
 		types = []string{"pe-coff"}
 	} else if k.hasPgp {
@@ -194,8 +204,13 @@ func (w *world) randomReq(rnd *rand.Rand, n int) reqSpec {
 	}
 	st := types[rnd.Intn(len(types))]
 	dg := []string{"sha256", "sha384", "sha512"}[rnd.Intn(3)]
-	ext := map[string]string{"jar": "jar", "pe-coff": "dll", "ps": "ps1", "pgp": "txt"}[st]
-	return reqSpec{long: n%3 == 2, rid: fmt.Sprintf("req-%04d-%s.%s", n, st, ext), key: k, sigtype: st, digest: dg, fixture: fixtures[st]}
+	if st == "apk" && dg == "sha384" {
+		dg = "sha512" // the APK signature scheme has no SHA-384
+	}
+	ext := map[string]string{"jar": "jar", "pe-coff": "dll", "ps": "ps1", "pgp": "txt", "apk": "apk"}[st]
+	// every third APK upload is cut short (an aborted client): the request must fail and leave nothing behind for others
+	return reqSpec{long: n%3 == 2, rid: fmt.Sprintf("req-%04d-%s.%s", n, st, ext), key: k, sigtype: st, digest: dg, fixture: fixtures[st],
+		truncate: st == "apk" && rnd.Intn(3) == 0}
 }
 
 func leafOf(pemText string) *x509.Certificate {
@@ -286,6 +301,29 @@ func (w *world) doRequest(base string, hc *http.Client, rs reqSpec, verify bool)
 			return outcome{err: err}
 		}
 	}
+	if rs.truncate {
+		// the upload breaks off three quarters of the way through: part of the package body has been digested by then
+		all, _ := io.ReadAll(stream)
+		cut := len(all) / 2
+		// the upload is a tar of (central directory, package): break off in the middle of the package member
+		octal := func(b []byte) int {
+			n := 0
+			for _, c := range bytes.Trim(b, " \x00") {
+				n = n*8 + int(c-'0')
+			}
+			return n
+		}
+		if len(all) > 1024 {
+			second := 512 + (octal(all[124:136])+511)/512*512
+			if second+512 < len(all) {
+				cut = second + 512 + octal(all[second+124:second+136])/2
+			}
+		}
+		if cut > len(all) {
+			cut = len(all) / 2
+		}
+		stream = bytes.NewReader(all[:cut])
+	}
 	req, _ := http.NewRequest("POST", base+"/sign?"+q.Encode(), struct{ io.Reader }{stream}) // hide Close: net/http would close the input file
 	req.Header.Set("X-Forwarded-For", "198.51.100.7")
 	req.Header.Set("Ssl-Client-Cert", url.PathEscape(w.client.PEM()))
@@ -349,6 +387,25 @@ func (w *world) doRequest(base string, hc *http.Client, rs reqSpec, verify bool)
 	if s.Hash != hash {
 		out.err = fmt.Errorf("signature digest %v, requested %v", s.Hash, hash)
 		return out
+	}
+	if rs.sigtype == "apk" {
+		var fp []string
+		for _, d := range pipelinex.DigestFingerprint("apk", dest) {
+			if strings.HasPrefix(d, "apk:") { // "apk:<signature algorithm id>:<digest>": the digest is what must not depend on the request
+				fp = append(fp, d[strings.LastIndexByte(d, ':')+1:])
+			}
+		}
+		got := strings.Join(fp, ",")
+		apkMu.Lock()
+		want, have := apkBaseline[rs.digest]
+		if !have {
+			apkBaseline[rs.digest] = got
+		}
+		apkMu.Unlock()
+		if got == "" || (have && got != want) {
+			out.err = fmt.Errorf("APK signing-block digests %q differ from those of the same content signed earlier (%q): the request signed something else", got, want)
+			return out
+		}
 	}
 	if s.X509Signature != nil {
 		if !bytes.Equal(s.X509Signature.Certificate.Raw, leafOf(rs.key.x509PEM).Raw) {
@@ -487,7 +544,7 @@ func Main(args []string) {
 	}
 	var next int64 = -1
 	var wg sync.WaitGroup
-	var okCount, failCount, verifiedCount, refused int64
+	var okCount, failCount, verifiedCount, refused, truncatedRefused int64
 	var shutdownStarted atomic.Bool
 	for c := 0; c < *conc; c++ {
 		wg.Add(1)
@@ -512,6 +569,8 @@ func Main(args []string) {
 					} else if *verify {
 						r.Fail(map[string]string{"engine": "signsrv", "kind": "isolation"}, reqs[i].rid, "request %s key=%s sigtype=%s digest=%s: 200 but %v", reqs[i].rid, reqs[i].key.name, reqs[i].sigtype, reqs[i].digest, o.err)
 					}
+				case reqs[i].truncate && o.status != 200:
+					atomic.AddInt64(&truncatedRefused, 1) // an upload cut short is refused: as it should be
 				case o.status == 0 && (began || shutdownStarted.Load()):
 					atomic.AddInt64(&refused, 1) // connection refused/reset around shutdown: not an accepted request
 				default:
@@ -618,9 +677,15 @@ func Main(args []string) {
 			}
 		}
 		inflight := 0
+		truncatedRids := map[string]bool{} // uploads the client cut short are answered with an error, shutdown or not
+		for _, rq := range reqs {
+			if rq.truncate {
+				truncatedRids[rq.rid] = true
+			}
+		}
 		for rid, sq := range recv {
 			if beginSeq != 0 && sq < beginSeq {
-				if answered[rid] != 200 {
+				if answered[rid] != 200 && !(truncatedRids[rid] && answered[rid] >= 400) {
 					r.Fail(map[string]string{"engine": "signsrv", "kind": "shutdown-lost"}, rid, "request %s was being handled when shutdown began but the client got status %d (shutdown did not let it finish)", rid, answered[rid])
 				} else {
 					inflight++
@@ -658,6 +723,7 @@ func Main(args []string) {
 	}
 	r.Extra["ok"] = okCount
 	r.Extra["failed"] = failCount
+	r.Extra["truncated_refused"] = truncatedRefused
 	r.Extra["verified"] = verifiedCount
 	r.Extra["events"] = len(trace)
 	r.Extra["behaviours_read"] = 1
